@@ -119,6 +119,7 @@ type c17Case struct {
 	RAG         bool        `json:"rag"`
 	RAGTopK     int         `json:"rag_top_k,omitempty"`
 	Chunks      []c17Chunk  `json:"chunks,omitempty"`
+	IDFamily    string      `json:"id_family,omitempty"` // which family the document ids were drawn from (informational only: labels)
 	Embed       []c17Emb    `json:"embed"`   // the stub embedder's table
 	Default     []float32   `json:"default"` // what the stub returns for any other text
 	Steps       []c17Step   `json:"steps"`
@@ -229,6 +230,66 @@ func c17Has(list []string, s string) bool {
 		}
 	}
 	return false
+}
+
+// c17IDToks: the words of a document id (lower case, split at everything that is
+// not a letter, a digit or '_'). A crude stand-in for "what a text index would
+// make of the id"; it is used ONLY to steer the generator towards ids that look
+// alike and to label cases - the oracle compares whole ids.
+func c17IDToks(id string) []string {
+	return strings.FieldsFunc(strings.ToLower(id), func(r rune) bool {
+		return !(r == '_' || (r >= '0' && r <= '9') || (r >= 'a' && r <= 'z') || r > 127)
+	})
+}
+
+// c17TokAlike: equal words once a plural "s" or an "ing" ending is dropped (notes/note, runs/running/run).
+func c17TokAlike(a, b string) bool {
+	return c17CrudeStem(a) == c17CrudeStem(b)
+}
+
+func c17CrudeStem(t string) string {
+	for _, r := range t {
+		if r < 'a' || r > 'z' {
+			return t
+		}
+	}
+	switch {
+	case len(t) > 5 && strings.HasSuffix(t, "ing"):
+		t = t[:len(t)-3]
+		if n := len(t); n >= 2 && t[n-1] == t[n-2] {
+			t = t[:n-1]
+		}
+	case len(t) > 3 && strings.HasSuffix(t, "s"):
+		t = t[:len(t)-1]
+	}
+	return t
+}
+
+// c17LookAlike: the sources list does NOT cite doc but shares a word with it.
+func c17LookAlike(doc string, sources []string) bool {
+	if c17Has(sources, doc) {
+		return false
+	}
+	dt := c17IDToks(doc)
+	for _, s := range sources {
+		for _, t := range c17IDToks(s) {
+			for _, d := range dt {
+				if c17TokAlike(t, d) {
+					return true
+				}
+			}
+		}
+	}
+	return false
+}
+
+// c17SrcWords: length of a sources list in words
+func c17SrcWords(sources []string) int {
+	n := 0
+	for _, s := range sources {
+		n += len(c17IDToks(s))
+	}
+	return n
 }
 
 // ---- reference model -----------------------------------------------------------
@@ -947,6 +1008,35 @@ func (r *c17Runner) stepInvalidate(i int, st c17Step) (violation string, stop bo
 	after := r.listCache()
 	stats["op:invalidate"]++
 	var citing, removedWrong, keptWrong []string
+	// classes of the invalidation (labels only): how many citing answers, and is there a present answer that does not
+	// cite the document but whose sources look like it (share a word), shorter than the longest citing one
+	nCite, nAlike, maxCite, minAlike := 0, 0, 0, 1<<30
+	for _, e := range m.ents {
+		if !e.Present || e.Maybe {
+			continue
+		}
+		switch w := c17SrcWords(e.Sources); {
+		case c17Has(e.Sources, st.Doc):
+			nCite++
+			if w > maxCite {
+				maxCite = w
+			}
+		case c17LookAlike(st.Doc, e.Sources):
+			nAlike++
+			if w < minAlike {
+				minAlike = w
+			}
+		}
+	}
+	if nCite > 1 {
+		stats["exp:invalidate-removes-several"]++
+	}
+	if nCite > 0 && nAlike > 0 {
+		stats["exp:invalidate-removes-and-keeps-look-alike"]++
+		if minAlike < maxCite {
+			stats["exp:invalidate-removes-and-keeps-shorter-look-alike"]++
+		}
+	}
 	for _, e := range m.ents {
 		if !e.Present || e.Maybe {
 			continue
